@@ -60,19 +60,51 @@ from pycoin.networks.registry import network_for_netcode
 _spec = importlib.util.spec_from_file_location("gens_bip32_c09", os.path.join(VERIF, "harness", "gens", "bip32_c09.py"))
 _gens = importlib.util.module_from_spec(_spec)
 _spec.loader.exec_module(_gens)
-ORDER_TABLE, ROWS = _gens.collect()
+
+
+def _collect_lenient():
+    """fallback when the fail-closed table generator refuses the tree (it then reports GENERROR and the run is a
+    correspondence break): take the live parser prefixes and assume the printer uses the same, so that the direct
+    checks can still look for a failing input"""
+    import pkgutil, importlib
+    import pycoin.symbols as S
+    rows = []
+    order = None
+    for _, name, ispkg in pkgutil.iter_modules(S.__path__):
+        try:
+            net = importlib.import_module("pycoin.symbols." + name).network
+            order = net.generator.order()
+            codec = 1 if type(net.parse).__name__ == "GRSParseAPI" else 0
+            for kt in (32, 49, 84):
+                a = getattr(net.parse, "_bip%d_prv_prefix" % kt, None)
+                b = getattr(net.parse, "_bip%d_pub_prefix" % kt, None)
+                if a is not None or b is not None:
+                    rows.append((net.symbol, kt, a, b, a, b, codec if kt == 32 else 0, codec))
+        except Exception:
+            continue
+    return order, rows
+
+
+TABLE_ERROR = None
+try:
+    ORDER_TABLE, ROWS = _gens.collect()
+except Exception as _e:      # noqa
+    TABLE_ERROR = "%s: %s" % (type(_e).__name__, _e)
+    ORDER_TABLE, ROWS = _collect_lenient()
 # rows: (symbol, kt, print_prv, print_pub, parse_prv, parse_pub, print_codec, parse_codec)
 NETS = {}
-for _r in ROWS:
+for _r in list(ROWS):
     if _r[0] not in NETS:
-        NETS[_r[0]] = network_for_netcode(_r[0])
+        try:
+            NETS[_r[0]] = network_for_netcode(_r[0])
+        except Exception:
+            ROWS = [x for x in ROWS if x[0] != _r[0]]
 
 # ---- secp256k1, independently of pycoin ---------------------------------------------------------------------------
 P_FIELD = 2 ** 256 - 2 ** 32 - 977
 N_ORDER = 0xFFFFFFFFFFFFFFFFFFFFFFFFFFFFFFFEBAAEDCE6AF48A03BBFD25E8CD0364141
 GX = 0x79BE667EF9DCBBAC55A06295CE870B07029BFCDB2DCE28D959F2815B16F81798
 GY = 0x483ADA7726A3C4655DA4FBFC0E1108A8FD17B448A68554199C47D08FFB10D4B8
-assert ORDER_TABLE == N_ORDER
 
 
 def ec_add(A, B):
@@ -377,7 +409,7 @@ def op_tok(op):
 def obj_at(root, cpath):
     o = root
     for k in cpath:
-        o = o._subkey_cache.get(tuple(k))
+        o = getattr(o, "_subkey_cache", {}).get(tuple(k))
         if o is None:
             return None
     return o
@@ -428,7 +460,9 @@ def cache_paths(root, limit=40):
     todo = [((), root)]
     while todo and len(out) < limit:
         p, o = todo.pop()
-        for k, c in o._subkey_cache.items():
+        for k, c in list(getattr(o, "_subkey_cache", {}).items()):
+            if not (isinstance(k, tuple) and len(k) == 3 and isinstance(k[0], int) and isinstance(k[1], bool) and isinstance(k[2], bool)):
+                continue        # a cache key of another shape: not addressable (the model will disagree on the results)
             q = p + (k,)
             out.append(q)
             todo.append((q, c))
@@ -678,14 +712,14 @@ def model_cases(rng, tier):
     for s in seeds:
         yield Case("master " + arg(s), (lambda s=s: call9(lambda: nd_tuple(BTC.keys.bip32_seed(s)))))
     # 2. histories on one root: subkey / subkey_for_path / subkeys in random order, private and public roots
-    for n in range(260 if Q else 6000):
+    for n in range(420 if Q else 6000):
         seed = bytes(rng.getrandbits(8) for _ in range(rng.choice([16, 32, 64])))
         pub = rng.random() < 0.4
         ops = gen_history(rng, mk_btc_root(seed, pub), rng.choice([1, 2, 3, 5, 8, 12]), pub)
         line = "ops %s %s %s" % (arg(seed), arg(pub), "[" + ",".join(op_tok(o) for o in ops) + "]")
         yield Case(line, (lambda seed=seed, pub=pub, ops=ops: run_ops_impl(mk_btc_root(seed, pub), ops)))
     # 2b. histories on explicit nodes with a substituted HMAC: retry rule (I_L >= n, child = 0) and public reduction
-    for n in range(60 if Q else 1200):
+    for n in range(100 if Q else 1200):
         sc = rng.choice([1, 2, 3, 4])
         k = rng.getrandbits(rng.choice([8, 32, 63])) or 3
         chain = HMAC_FORCE + bytes([sc]) + k.to_bytes(8, "big") + bytes(rng.getrandbits(8) for _ in range(18))
@@ -730,16 +764,42 @@ def model_cases(rng, tier):
         yield Case("ckd_pub %s %s %s" % (arg(k), arg(chain), arg(i)), f2)
     # 4. serialize on explicit nodes (depth and index boundaries, as_private True/False/None, public and private)
     for n in range(200 if Q else 4000):
-        depth = rng.choice([0, 1, 255, 256, -1, 300, rng.getrandbits(8)])
-        idx = rng.choice([0, 1, 2 ** 31, 2 ** 32 - 1, 2 ** 32, -1, rng.getrandbits(32)])
+        depth = rng.choice([0, 1, 2, 7, 255, 255, rng.getrandbits(8), rng.getrandbits(8), 256, -1, 300])
+        idx = rng.choice([0, 1, 2 ** 31, 2 ** 32 - 1, 2 ** 31 - 1, rng.getrandbits(32), rng.getrandbits(32), rng.getrandbits(32), 2 ** 32, -1])
         chain = bytes(rng.getrandbits(8) for _ in range(32))
         fpr = bytes(rng.getrandbits(8) for _ in range(4))
         k = rnd_secret(rng) % N_ORDER or 1
-        pub = rng.random() < 0.5
-        ap = rng.choice([None, True, False])
+        pub = rng.random() < 0.4
+        ap = rng.choice([None, None, False, True]) if pub else rng.choice([None, True, False])
         yield Case("serialize %s %s" % (node_args(chain, depth, fpr, idx, None if pub else k, k), "N" if ap is None else arg(ap)),
                    (lambda chain=chain, depth=depth, fpr=fpr, idx=idx, k=k, pub=pub, ap=ap:
                     call9(lambda: make_node("BTC", 32, chain, depth, fpr, idx, None if pub else k, k).serialize(as_private=ap))))
+    # 4b. the constructor: wrong lengths, both / neither key, out-of-range secret, point at infinity
+    cls0 = node_class("BTC", 32)
+    for n in range(120 if Q else 2500):
+        defect = rng.choice([""] * 9 + ["chain", "fpr", "both", "neither", "secret", "infinity"])
+        chain = bytes(rng.getrandbits(8) for _ in range(rng.choice([31, 33, 0, 64]) if defect == "chain" else 32))
+        fpr = bytes(rng.getrandbits(8) for _ in range(rng.choice([3, 5, 0]) if defect == "fpr" else 4))
+        depth = rng.choice([0, 1, 255, 256, -1])
+        idx = rng.choice([0, 2 ** 31, 2 ** 32, -1])
+        if rng.random() < 0.5:
+            sx, pp = rnd_secret(rng) % N_ORDER or 1, None
+        else:
+            sx, pp = None, rnd_secret(rng) % N_ORDER or 1
+        if defect == "both":
+            sx, pp = 5, 5
+        elif defect == "neither":
+            sx, pp = None, None
+        elif defect == "secret":
+            sx, pp = rng.choice([0, N_ORDER, -1, N_ORDER + 7, 2 ** 256]), None
+        elif defect == "infinity":
+            sx, pp = None, 0
+        def impl_init(chain=chain, fpr=fpr, depth=depth, idx=idx, sx=sx, pp=pp):
+            pair = None if pp is None else (scalar_pair(pp) or (None, None))
+            return call9(lambda: nd_tuple(cls0(chain_code=chain, depth=depth, parent_fingerprint=fpr, child_index=idx,
+                                               secret_exponent=sx, public_pair=pair)))
+        yield Case("node_init %s %s %s %s %s %s" % (arg(chain), arg(depth), arg(fpr), arg(idx), "N" if sx is None else arg(sx),
+                                                   "N" if pp is None else arg(pp)), impl_init)
     # 5. deserialize: valid blobs, every length around 78, malformed key fields
     cls = node_class("BTC", 32)
     for L in list(range(0, 84)) + [100, 156]:
@@ -756,12 +816,12 @@ def model_cases(rng, tier):
         net = NETS[sym]
         for n in range(6 if Q else 60):
             k = rnd_secret(rng) % N_ORDER or 1
-            depth = rng.choice([0, 1, 5, 255, 256])
+            depth = rng.choice([0, 1, 5, 255, rng.getrandbits(8), 256])
             idx = rng.choice([0, 2 ** 31, 2 ** 32 - 1, rng.getrandbits(32)])
             chain = bytes(rng.getrandbits(8) for _ in range(32))
             fpr = bytes(rng.getrandbits(8) for _ in range(4))
             pub = rng.random() < 0.4
-            ap = rng.random() < 0.6
+            ap = rng.random() < (0.15 if pub else 0.6)
             def impl_hwif(sym=sym, kt=kt, chain=chain, depth=depth, fpr=fpr, idx=idx, k=k, pub=pub, ap=ap, pcodec=pcodec):
                 def f():
                     t = make_node(sym, kt, chain, depth, fpr, idx, None if pub else k, k).hwif(as_private=ap)
@@ -844,7 +904,7 @@ def model_cases(rng, tier):
             return call9(lambda: ew_tuple(cls(master_private_key=s, public_pair=None if p is None else (scalar_pair(p) or (None, None)))))
         yield Case("electrum_init %s %s" % ("N" if s is None else arg(s), "N" if p is None else arg(p)), impl_init)
     # 9. implementation against the BIP text (extracted Spec/Bip32Spec.v): chains of extended keys, serialized
-    for n in range(60 if Q else 1500):
+    for n in range(120 if Q else 1500):
         seed = bytes(rng.getrandbits(8) for _ in range(rng.choice([16, 32, 64])))
         depth = rng.randint(0, 8)
         path = [(rng.choice(IDX) if rng.random() < 0.6 else rng.getrandbits(31)) % 2 ** 31 | (0x80000000 if rng.random() < 0.4 else 0)
@@ -1082,6 +1142,23 @@ def chk_hardened_refused(sym, kt, seed, p1, i):
     return None
 
 
+def chk_index_range(seed, i, pub):
+    """indices outside 0..2^31-1 are refused (ValueError) by subkey and by the path syntax: no aliasing of other children"""
+    m = BTC.keys.bip32_seed(seed)
+    if pub:
+        m = m.public_copy()
+    for f in (lambda: m.subkey(i), lambda: m.subkey(i, is_hardened=not pub), lambda: m.subkey_for_path("%d" % i),
+              lambda: m.subkey_for_path("0/%d" % i)):
+        try:
+            r = f()
+        except ValueError:
+            continue
+        except Exception as e:
+            return {"kind": "index-out-of-range-wrong-exception", "i": i, "detail": "%s: %s" % (type(e).__name__, e)}
+        return {"kind": "index-out-of-range-accepted", "i": i, "child_index": r.child_index()}
+    return None
+
+
 def chk_metadata(seed, p1, i, h, pub):
     m = BTC.keys.bip32_seed(seed)
     parent = m.subkey_for_path(p1) if p1 else m
@@ -1295,7 +1372,7 @@ def prop_cases(rng, tier):
     for _ in range(60 if Q else 1500):
         yield (lambda k: PropCase("sec_oracle", {"k": k}, (lambda: chk_sec_oracle(k))))(rnd_secret(rng) % N_ORDER or 1)
     real = [("BTC", 32), ("XTN", 32), ("LTC", 32), ("BTC", 49), ("BTC", 84), ("XTN", 49), ("XTN", 84), ("LTC", 49), ("LTC", 84)]
-    for n in range(70 if Q else 2500):
+    for n in range(160 if Q else 2500):
         sym, kt = real[n % len(real)]
         seed = _seed(rng)
         depth = rng.randint(0, 8 if n % 7 == 0 else 4)
@@ -1305,7 +1382,7 @@ def prop_cases(rng, tier):
         path = [i if j < cut or rng.random() < 0.05 else i & 0x7FFFFFFF for j, i in enumerate(path)]
         inp = {"net": sym, "kt": kt, "seed": seed.hex(), "path": path, "cut": cut}
         yield PropCase("ref", inp, (lambda sym=sym, kt=kt, seed=seed, path=path, cut=cut: chk_ref(sym, kt, seed, path, cut)))
-    for n in range(150 if Q else 4000):
+    for n in range(400 if Q else 4000):
         sym, kt = real[n % len(real)]
         seed, p1, p2 = _seed(rng), _any_path(rng, 3), _nh_path(rng, 5)
         inp = {"net": sym, "kt": kt, "seed": seed.hex(), "p1": p1, "p2": p2}
@@ -1315,25 +1392,29 @@ def prop_cases(rng, tier):
         seed, p1, i = _seed(rng), _any_path(rng, 2), rng.choice(IDX) if rng.random() < 0.7 else rng.getrandbits(31)
         inp = {"net": sym, "kt": kt, "seed": seed.hex(), "p1": p1, "i": i}
         yield PropCase("hardened_refused", inp, (lambda sym=sym, kt=kt, seed=seed, p1=p1, i=i: chk_hardened_refused(sym, kt, seed, p1, i)))
-    for n in range(200 if Q else 5000):
+    for n in range(500 if Q else 5000):
         seed, p1 = _seed(rng), _any_path(rng, 3)
         i = rng.choice(IDX) if rng.random() < 0.7 else rng.getrandbits(31)
         h, pub = rng.random() < 0.5, rng.random() < 0.4
         inp = {"seed": seed.hex(), "p1": p1, "i": i, "h": h, "pub": pub}
         yield PropCase("metadata", inp, (lambda seed=seed, p1=p1, i=i, h=h, pub=pub: chk_metadata(seed, p1, i, h, pub)))
+    for i in [-1, -2 ** 31, 2 ** 31, 2 ** 31 + 1, 2 ** 32 - 1, 2 ** 32, 2 ** 32 + 5, 2 ** 40] + [2 ** 31 + rng.getrandbits(31) for _ in range(10 if Q else 200)]:
+        for pub in (False, True):
+            seed = _seed(rng)
+            yield PropCase("index_range", {"seed": seed.hex(), "i": i, "pub": pub}, (lambda seed=seed, i=i, pub=pub: chk_index_range(seed, i, pub)))
     # text round trip: every table row (all networks x key types), private and public
     for row in ROWS:
-        for n in range(2 if Q else 12):
+        for n in range(4 if Q else 12):
             seed, path, ap = _seed(rng), _any_path(rng, 3), n % 2 == 0
             inp = {"net": row[0], "kt": row[1], "seed": seed.hex(), "path": path, "ap": ap}
             yield PropCase("text_roundtrip", inp, (lambda row=row, seed=seed, path=path, ap=ap: chk_text_roundtrip(row[0], row[1], seed, path, ap)))
-    for n in range(120 if Q else 3000):
+    for n in range(300 if Q else 3000):
         seed, pub = _seed(rng), rng.random() < 0.4
         pool = [(rnd_index(rng), rng.random() < 0.4, rng.choice([None, True, False])) for _ in range(rng.randint(1, 6))]
         calls = [rng.choice(pool) for _ in range(rng.randint(1, 14))]
         inp = {"seed": seed.hex(), "pub": pub, "calls": [list(c) for c in calls]}
         yield PropCase("cache", inp, (lambda seed=seed, pub=pub, calls=calls: chk_cache(seed, pub, calls)))
-    for n in range(80 if Q else 2000):
+    for n in range(200 if Q else 2000):
         seed = _seed(rng)
         toks = [(rng.choice(IDX) if rng.random() < 0.6 else rng.getrandbits(31), rng.random() < 0.5) for _ in range(rng.randint(1, 6))]
         pub = rng.random() < 0.3
@@ -1379,6 +1460,8 @@ def replay_input(check, inp):
         return chk_commute(inp["net"], inp["kt"], b(inp["seed"]), inp["p1"], inp["p2"])
     if check == "hardened_refused":
         return chk_hardened_refused(inp["net"], inp["kt"], b(inp["seed"]), inp["p1"], inp["i"])
+    if check == "index_range":
+        return chk_index_range(b(inp["seed"]), int(inp["i"]), inp["pub"])
     if check == "metadata":
         return chk_metadata(b(inp["seed"]), inp["p1"], inp["i"], inp["h"], inp["pub"])
     if check == "text_roundtrip":
@@ -1428,6 +1511,9 @@ def search(rng, tier, disagreements, known_ids):
                     for h in (False, True):
                         cands.append(PropCase("metadata", {"seed": seed.hex(), "p1": "", "i": i, "h": h, "pub": False},
                                               (lambda seed=seed, i=i, h=h: chk_metadata(seed, "", i, h, False))))
+                for i in (-1, 2 ** 31, 2 ** 32):
+                    cands.append(PropCase("index_range", {"seed": seed.hex(), "i": i, "pub": False},
+                                          (lambda seed=seed, i=i: chk_index_range(seed, i, False))))
                 cands.append(PropCase("cache", {"seed": seed.hex(), "pub": False, "calls": [[1, False, None], [1, False, True], [1, False, None], [1, True, False]]},
                                       (lambda seed=seed: chk_cache(seed, False, [(1, False, None), (1, False, True), (1, False, None), (1, True, False)]))))
                 cands.append(PropCase("spellings", {"seed": seed.hex(), "toks": [[1, True], [2, False], [2 ** 24, True]], "pub": False},
